@@ -1,11 +1,10 @@
 (* Property C03 - the ledger is a function of the main chain alone (reorganisations are exact).
    Statements only; proofs in Proofs/Pointwise.v, Proofs/Undo.v (transactions of every kind, staker reward),
-   Proofs/Undo2.v (lists of transactions, blocks), Proofs/Undo3.v (the same up to the order of the funds of a pool),
-   Proofs/Undo4.v (the invariants along chains, several blocks), Proofs/UndoRefuted.v (counterexamples),
-   Proofs/NodeBasics.v. *)
+   Proofs/Undo2.v (lists of transactions, blocks), Proofs/Undo4.v (the invariants along chains, several blocks),
+   Proofs/UndoRefuted.v (concrete evaluations), Proofs/NodeBasics.v. *)
 From Virel Require Import Lib.Config Lib.U64 Lib.AMap Gen.Params Model.Emission Model.Ledger Model.Node
   Proofs.Emission Proofs.Conservation Proofs.Pointwise Proofs.StakedSum Proofs.NodeBasics
-  Proofs.Undo Proofs.Undo2 Proofs.Undo3 Proofs.Undo4 Proofs.UndoRefuted.
+  Proofs.Undo Proofs.Undo2 Proofs.Undo4 Proofs.UndoRefuted.
 Open Scope N_scope.
 
 Theorem C03_cfg_ok_mainnet : cfg_ok_emission cfg_mainnet = true. Proof. vm_compute. reflexivity. Qed.
@@ -13,31 +12,38 @@ Theorem C03_cfg_ok_testnet : cfg_ok_emission cfg_testnet = true. Proof. vm_compu
 Theorem C03_cfg_ok_unittest : cfg_ok_emission cfg_unittest = true. Proof. vm_compute. reflexivity. Qed.
 Theorem C03_cfg_ok_verifnet : cfg_ok_emission cfg_verifnet = true. Proof. vm_compute. reflexivity. Qed.
 
-(* FULL STATEMENT as first written (lemma B of DESIGN.md): for every block and every ledger on which it applies,
-   disconnecting it again restores the accounts, the delegate records and the staked total.
-   In this literal, hypothesis-free form it is FALSE of the model (and of the Go code the model transcribes):
-   C03_undo_block_full_refuted below.  The reason that matters: the undo of an unstake that emptied a fund re-creates
-   the fund at the END of the pool's fund list, so a pool's record comes back with its funds in another order
-   (chaintype.Delegate.SortFunds is never called).  Kept as the reference statement. *)
+(* FULL STATEMENT as first written (lemma B of DESIGN.md), without hypotheses: for every block and every ledger on
+   which it applies, disconnecting it again restores the accounts, the delegate records and the staked total.
+   Kept as the reference statement; it is proved below (C03_undo_block) under an explicit bundle of hypotheses that
+   hold for every ledger reached from the empty ledger and every block that passes stateless validation.  Without
+   them it is false for uninteresting reasons (ill-typed amounts, a fund of amount 0: C03_undo_stake_zero_fund_refuted).
+
+   HISTORY (finding R21).  For the code before /repo commit d31bf91 the conclusion was false even under these
+   hypotheses: the undo of an unstake that had emptied a fund (ApplyStake with reverse = true) re-created the fund at
+   the END of the pool's fund list (chaintype.Delegate.SortFunds exists but is never called), so a pool whose emptied
+   fund was not its last one came back with the same funds in another order.  This file then contained
+   C03_undo_block_full_refuted : ~ C03_undo_block_full  and  C03_undo_unstake_order_refuted, by evaluation on the
+   witness of Proofs/UndoRefuted.v (pool 7 with funds [3:100; 5:50], key 1 unstakes 100: after apply + remove the pool
+   was [5:50; 3:100]), and the theorems only held up to the order of the funds or when every fully unstaked fund was
+   the last of its pool.  The implementation confirmed it (Check/C03.v code 9).  After the repair the fund is
+   re-inserted at the index it has in the pool record saved under the transaction id, which is its original position
+   (Proofs/Undo.v: insert_at_fund_index), and the statements are exact; the old witness now evaluates to an exact
+   restoration (C03_undo_unstake_order_witness_restored). *)
 Definition C03_undo_block_full : Prop := forall cfg genesis_addr l b top_h l1,
   apply_block cfg genesis_addr l b top_h = Ok l1 ->
   exists l2, remove_block cfg genesis_addr l1 b top_h = Ok l2 /\ same_accounts l2 l /\
              (forall id, get_dlg l2 id = get_dlg l id) /\ staked l2 = staked l.
 
-Theorem C03_undo_block_full_refuted : ~ C03_undo_block_full.
-Proof. exact undo_block_full_refuted. Qed.
-Print Assumptions C03_undo_block_full_refuted.
-
 (* The hypotheses under which the statement is PROVED, for all configurations with a sound emission schedule, all
    ledgers and all blocks (no bound on sizes):
-     SInv l        delegate table in database-key order, filed under its ids, staked total = sum of all funds < 2^64
-                   (kept by every operation: Props/C01.v);
+     SInv l        delegate table in database-key order, filed under its ids, staked total = sum of all funds < 2^64;
      FPos l        no fund with amount 0 (a fund that reaches 0 is dropped; stakes are >= MIN_STAKE_AMOUNT; the
                    rounding remainder of a non-zero staker reward is >= 1% of it);
      FUniq l       the funds of a pool have distinct owners (a fund is appended only for an owner without one);
+                   these three hold along every chain from the empty ledger: C03_invariants_chain;
      room for the block reward below the maximum supply (holds along every chain: Props/C01.v);
      tx_ok         uint64-typed amounts and an overflow-free total (what Transaction.Prevalidate checks, code 212);
-     stake_pos     staked amounts > 0 (check 210 of prevalidate_tx: amount >= MIN_STAKE_AMOUNT > 0);
+     stake_pos     staked amounts > 0 (check 210 of prevalidate_tx: C03_prevalidate_stake_pos);
      the transaction ids of the block are pairwise distinct and differ from the block hash (they are hashes of
                    different contents; the delegate history is keyed by both);
      the per-address counters (incoming count, nonce) do not wrap within the block.
@@ -47,53 +53,33 @@ Print Assumptions C03_undo_block_full_refuted.
    the unlock height of a re-created fund comes from the delegate history. *)
 Definition C03_block_hyps : config -> ledger -> lblock -> Prop := block_hyps.
 
-(* PROVED: the full statement with the delegate records compared up to the order of their funds
-   (dperm: same id, owner, name, and the funds are a permutation: same owners, amounts, unlock heights).
-   This is also how the implementation-side check compares pools (Check/C03.v looks funds up by owner). *)
-Definition C03_undo_block_upto_fund_order : Prop := forall cfg genesis_addr l b top_h l1,
+Definition C03_undo_block_statement : Prop := forall cfg genesis_addr l b top_h l1,
   C03_block_hyps cfg l b ->
-  apply_block cfg genesis_addr l b top_h = Ok l1 ->
-  forall top', exists l2, remove_block cfg genesis_addr l1 b top' = Ok l2 /\ same_accounts l2 l /\
-    (forall id, match get_dlg l id, get_dlg l2 id with
-                | Some d, Some d' => dperm d d'
-                | None, None => True
-                | _, _ => False
-                end) /\ staked l2 = staked l.
-
-Theorem C03_undo_block : C03_undo_block_upto_fund_order.
-Proof. exact undo_block_upto_fund_order. Qed.
-Print Assumptions C03_undo_block.
-
-(* PROVED: the full statement exactly as written (delegate records equal, even the table as a list) when in addition
-   every unstake of the block that empties a fund empties the LAST fund of its pool ([unstakes_last], evaluated on
-   the ledgers the transactions are applied to) - in particular for blocks without a full unstake. *)
-Theorem C03_undo_block_exact_partial : forall cfg genesis_addr l b top_h l1,
-  C03_block_hyps cfg l b ->
-  unstakes_last cfg l (lb_txs b) (lb_height b) (lb_hash b) top_h ->
   apply_block cfg genesis_addr l b top_h = Ok l1 ->
   forall top', exists l2, remove_block cfg genesis_addr l1 b top' = Ok l2 /\ same_accounts l2 l /\
     dlgs l2 = dlgs l /\ (forall id, get_dlg l2 id = get_dlg l id) /\ staked l2 = staked l.
-Proof. exact undo_block_exact. Qed.
-Print Assumptions C03_undo_block_exact_partial.
 
-(* The block theorems in the form needed to chain them (several blocks disconnected in a row): the removal starts
-   from ANY ledger that agrees with the result of the application on accounts, delegate table and staked total
-   (leqv_p: up to fund order; leqv: exactly) and on the delegate-history entries of this block; the wallet indexes
-   and the other delegate-history entries may differ (they do after an undo: stale entries stay and are overwritten
-   by the next application before they are read). *)
+(* PROVED: the literal conclusion of C03_undo_block_full (and the delegate table even equal as a list) *)
+Theorem C03_undo_block : C03_undo_block_statement.
+Proof. exact remove_apply_block. Qed.
+Print Assumptions C03_undo_block.
+
+(* The same in the form needed to chain it: the removal starts from ANY ledger that agrees with the result of the
+   application on accounts (extensionally), delegate table and staked total (leqv) and on the delegate-history entries
+   of this block; the wallet indexes and the other delegate-history entries may differ (they do after an undo: stale
+   entries stay; every entry is written by an application before the matching removal reads it). *)
 Theorem C03_undo_block_general : forall cfg genesis_addr l b top_h lB,
   C03_block_hyps cfg l b ->
   apply_block cfg genesis_addr l b top_h = Ok lB ->
-  forall l' top', leqv_p lB l' ->
+  forall l' top', leqv lB l' ->
     (forall k, k = lb_hash b \/ In k (map tx_id (lb_txs b)) -> nget (dhist l') k = nget (dhist lB) k) ->
-    exists l2, remove_block cfg genesis_addr l' b top' = Ok l2 /\ leqv_p l l2 /\ dhist l2 = dhist l'.
-Proof. exact undo_block_general. Qed.
+    exists l2, remove_block cfg genesis_addr l' b top' = Ok l2 /\ leqv l l2 /\ dhist l2 = dhist l'.
+Proof. exact undo_block. Qed.
 Print Assumptions C03_undo_block_general.
 
 (* ---- the invariants are not assumptions about reachable ledgers: they hold along every chain ---- *)
 (* PInv l = SInv l /\ FPos l /\ FUniq l holds for the empty ledger and is kept by ApplyBlockToState (transactions of
-   every kind and the staker reward: its rounding remainder is at least 1% of a non-zero reward), hence holds after
-   every chain of blocks applied to the empty ledger (heights 1, 2, ... and the scheduled supply as in Props/C01.v) *)
+   every kind and the staker reward), hence holds after every chain of blocks applied to the empty ledger *)
 Theorem C03_invariants_initial : PInv ledger0.
 Proof. exact PInv0. Qed.
 Print Assumptions C03_invariants_initial.
@@ -114,9 +100,9 @@ Print Assumptions C03_prevalidate_stake_pos.
 
 (* ---- several blocks: what a reorganisation disconnects ---- *)
 (* the blocks of a chain segment connected lowest first (TopHeight = the parent's height) and then disconnected highest
-   first (TopHeight = the block's own height, as reorg_disconnect does), starting from any ledger that agrees with
-   the tip ledger: accounts, staked total and delegate records (up to fund order) are back to what they were below
-   the segment.  chain_keys = the hashes of the blocks and the ids of their transactions, pairwise distinct. *)
+   first (TopHeight = the block's own height, as reorg_disconnect does): accounts, delegate records and staked total
+   are back to what they were below the segment.  chain_keys = the hashes of the blocks and the ids of their
+   transactions, pairwise distinct. *)
 Theorem C03_undo_chain : forall cfg genesis_addr, cfg_ok_emission cfg = true ->
   forall bs l (h : nat) ln,
   total_bal l = sum_rewards cfg h -> heights_from h bs -> PInv l ->
@@ -125,48 +111,67 @@ Theorem C03_undo_chain : forall cfg genesis_addr, cfg_ok_emission cfg = true ->
   (forall a, inc (acct_at l a) + chain_nouts bs < two64) ->
   (forall a, nonce (acct_at l a) + chain_ntx bs < two64) ->
   apply_chain cfg genesis_addr l bs = Ok ln ->
-  forall l', leqv_p ln l' -> (forall k, In k (chain_keys bs) -> nget (dhist l') k = nget (dhist ln) k) ->
-  exists l2, remove_chain cfg genesis_addr l' (rev bs) = Ok l2 /\ leqv_p l l2 /\ dhist l2 = dhist l'.
-Proof. exact undo_chain. Qed.
+  exists l2, remove_chain cfg genesis_addr ln (rev bs) = Ok l2 /\ same_accounts l2 l /\
+    dlgs l2 = dlgs l /\ (forall id, get_dlg l2 id = get_dlg l id) /\ staked l2 = staked l.
+Proof. exact remove_apply_chain. Qed.
 Print Assumptions C03_undo_chain.
 
+(* from any ledger that agrees with the tip ledger *)
+Theorem C03_undo_chain_general : forall cfg genesis_addr, cfg_ok_emission cfg = true ->
+  forall bs l (h : nat) ln,
+  total_bal l = sum_rewards cfg h -> heights_from h bs -> PInv l ->
+  Forall (fun b => Forall (tx_ok cfg) (lb_txs b) /\ Forall stake_pos (lb_txs b)) bs ->
+  NoDup (chain_keys bs) ->
+  (forall a, inc (acct_at l a) + chain_nouts bs < two64) ->
+  (forall a, nonce (acct_at l a) + chain_ntx bs < two64) ->
+  apply_chain cfg genesis_addr l bs = Ok ln ->
+  forall l', leqv ln l' -> (forall k, In k (chain_keys bs) -> nget (dhist l') k = nget (dhist ln) k) ->
+  exists l2, remove_chain cfg genesis_addr l' (rev bs) = Ok l2 /\ leqv l l2 /\ dhist l2 = dhist l'.
+Proof. exact undo_chain. Qed.
+Print Assumptions C03_undo_chain_general.
+
 (* ---- transactions: RemoveTxFromState after ApplyTxToState, all five kinds and the mismatching version bytes ---- *)
-(* exact form (same conclusion as the transfer theorem below) *)
 Theorem C03_undo_tx : forall cfg l t h bh top_h l1 tot,
-  SInv l -> FPos l -> total_bal l < two64 -> wf_tx cfg t -> tx_total cfg t = Some tot ->
+  SInv l -> FPos l -> FUniq l -> total_bal l < two64 -> wf_tx cfg t -> tx_total cfg t = Some tot ->
   (forall a, inc (acct_at l a) + tx_nouts t < two64) ->
   nonce (acct_at l (addr_of_key (tx_signer t))) + 1 < two64 ->
-  unstake_last l t ->
   apply_tx cfg l t h bh top_h = Ok l1 ->
   forall top', exists l2, remove_tx cfg l1 t bh top' = Ok l2 /\ same_accounts l2 l /\ dlgs l2 = dlgs l /\ staked l2 = staked l.
 Proof. exact remove_apply_tx. Qed.
 Print Assumptions C03_undo_tx.
 
-(* up to fund order, without the side condition on full unstakes, from any agreeing ledger *)
-Theorem C03_undo_tx_upto_fund_order : forall cfg l t h bh top_h l1 tot,
+(* from any agreeing ledger *)
+Theorem C03_undo_tx_general : forall cfg l t h bh top_h l1 tot,
   SInv l -> FPos l -> FUniq l -> total_bal l < two64 -> wf_tx cfg t -> tx_total cfg t = Some tot ->
   (forall a, inc (acct_at l a) + tx_nouts t < two64) ->
   nonce (acct_at l (addr_of_key (tx_signer t))) + 1 < two64 ->
   apply_tx cfg l t h bh top_h = Ok l1 ->
-  forall l' top', leqv_p l1 l' -> nget (dhist l') (tx_id t) = nget (dhist l1) (tx_id t) ->
-  exists l2, remove_tx cfg l' t bh top' = Ok l2 /\ leqv_p l l2 /\ dhist l2 = dhist l'.
-Proof. exact undo_tx_perm. Qed.
-Print Assumptions C03_undo_tx_upto_fund_order.
+  forall l' top', leqv l1 l' -> nget (dhist l') (tx_id t) = nget (dhist l1) (tx_id t) ->
+  exists l2, remove_tx cfg l' t bh top' = Ok l2 /\ leqv l l2 /\ dhist l2 = dhist l'.
+Proof. exact undo_tx. Qed.
+Print Assumptions C03_undo_tx_general.
 
-(* what exactly the undo of an unstake produces: the pool's funds with the signer's fund moved to the end when the
-   unstake had emptied it (with its amount and its saved unlock height), unchanged otherwise *)
-Theorem C03_undo_unstake_exact_result : forall cfg l amt id signer top txid l1 d f,
-  SInv l -> amt < two64 ->
-  get_dlg l id = Some d -> find_fund (d_funds d) signer = Some f ->
-  (f_amt f = amt -> find_fund (upd_fund (d_funds d) signer None) signer = None) ->
+(* the two staking operations by themselves.  Stake: existing fund (amount and unlock height back, PrevUnlock was
+   checked against the fund) or new fund (appended, dropped again when its amount returns to 0).  Unstake: partial
+   (amount added back) or full (fund dropped, pool saved under the transaction id, fund re-inserted with the saved
+   unlock height at the saved position). *)
+Theorem C03_undo_stake : forall cfg l amt id pu signer top txid l1,
+  SInv l -> FPos l -> amt < two64 ->
+  apply_stake cfg l amt id pu signer top txid false = Ok l1 ->
+  forall l' top', dlgs l' = dlgs l1 -> staked l' = staked l1 ->
+  exists l2, apply_unstake l' amt id signer top' txid true pu = Ok l2 /\
+    dlgs l2 = dlgs l /\ staked l2 = staked l /\ accts l2 = accts l' /\ dhist l2 = dhist l'.
+Proof. exact undo_stake. Qed.
+Print Assumptions C03_undo_stake.
+
+Theorem C03_undo_unstake : forall cfg l amt id signer top txid l1,
+  SInv l -> FUniq l -> amt < two64 ->
   apply_unstake l amt id signer top txid false 0 = Ok l1 ->
   forall l' top', dlgs l' = dlgs l1 -> staked l' = staked l1 -> nget (dhist l') txid = nget (dhist l1) txid ->
   exists l2, apply_stake cfg l' amt id 0 signer top' txid true = Ok l2 /\
-    dlgs l2 = dins (dlgs l) id (mkdlg (d_id d) (d_owner d) (d_name d)
-                 (if f_amt f =? amt then upd_fund (d_funds d) signer None ++ [f] else d_funds d)) /\
-    staked l2 = staked l /\ accts l2 = accts l' /\ dhist l2 = dhist l'.
-Proof. exact undo_unstake_gen. Qed.
-Print Assumptions C03_undo_unstake_exact_result.
+    dlgs l2 = dlgs l /\ staked l2 = staked l /\ accts l2 = accts l' /\ dhist l2 = dhist l'.
+Proof. exact undo_unstake. Qed.
+Print Assumptions C03_undo_unstake.
 
 (* the staker reward: RemovePosReward after ApplyPosReward restores the delegate table and the staked total
    (the delegate history keeps the saved record) *)
@@ -185,36 +190,25 @@ Theorem C03_undo_txs : forall cfg txs l h bh top fee ln fee',
   (forall a, inc (acct_at l a) + nouts_sum txs < two64) ->
   (forall a, nonce (acct_at l a) + N.of_nat (length txs) < two64) ->
   apply_txs cfg l txs h bh top fee = Ok (ln, fee') ->
-  forall l' top', leqv_p ln l' ->
-    (forall t, In t txs -> nget (dhist l') (tx_id t) = nget (dhist ln) (tx_id t)) ->
-    exists l2, remove_txs cfg l' (rev txs) bh top' = Ok l2 /\ leqv_p l l2 /\ dhist l2 = dhist l'.
-Proof. exact undo_txs_perm. Qed.
-Print Assumptions C03_undo_txs.
-
-Theorem C03_undo_txs_exact_partial : forall cfg txs l h bh top fee ln fee',
-  SInv l -> FPos l -> total_bal l < two64 -> Forall (tx_ok cfg) txs -> Forall stake_pos txs -> NoDup (map tx_id txs) ->
-  (forall a, inc (acct_at l a) + nouts_sum txs < two64) ->
-  (forall a, nonce (acct_at l a) + N.of_nat (length txs) < two64) ->
-  unstakes_last cfg l txs h bh top ->
-  apply_txs cfg l txs h bh top fee = Ok (ln, fee') ->
   forall l' top', leqv ln l' ->
     (forall t, In t txs -> nget (dhist l') (tx_id t) = nget (dhist ln) (tx_id t)) ->
     exists l2, remove_txs cfg l' (rev txs) bh top' = Ok l2 /\ leqv l l2 /\ dhist l2 = dhist l'.
 Proof. exact undo_txs. Qed.
-Print Assumptions C03_undo_txs_exact_partial.
+Print Assumptions C03_undo_txs.
 
-(* ---- counterexamples (unittest configuration; every other hypothesis of the theorems holds) ---- *)
-(* a full unstake of a fund that is not the last of its pool: the pool comes back with its funds reordered *)
-Theorem C03_undo_unstake_order_refuted :
-  SInv wit_ledger /\ FPos wit_ledger /\ total_bal wit_ledger < two64 /\
-  wf_tx cfg_unittest wit_tx /\ tx_total cfg_unittest wit_tx = Some 100 /\
+(* ---- concrete evaluations (unittest configuration) ---- *)
+(* the witness that refuted exactness before the repair of R21 (full unstake of a fund that is not the last of its
+   pool) now restores the delegate table exactly, as a transaction and inside a block *)
+Theorem C03_undo_unstake_order_witness_restored :
   apply_tx cfg_unittest wit_ledger wit_tx 5 99 4 = Ok wit_l1 /\
+  get_dlg wit_l1 7 = Some (mkdlg 7 9 0 [mkfund 5 50 0]) /\
   remove_tx cfg_unittest wit_l1 wit_tx 99 5 = Ok wit_l2 /\
-  get_dlg wit_ledger 7 = Some (mkdlg 7 9 0 [mkfund 3 100 0; mkfund 5 50 0]) /\
-  get_dlg wit_l2 7 = Some (mkdlg 7 9 0 [mkfund 5 50 0; mkfund 3 100 0]) /\
-  get_dlg wit_l2 7 <> get_dlg wit_ledger 7.
-Proof. exact undo_unstake_order_refuted. Qed.
-Print Assumptions C03_undo_unstake_order_refuted.
+  dlgs wit_l2 = dlgs wit_ledger /\ accts wit_l2 = accts wit_ledger /\ staked wit_l2 = staked wit_ledger /\
+  apply_block cfg_unittest 201 wit_ledger wit_block 4 = Ok wit_lB /\
+  remove_block cfg_unittest 201 wit_lB wit_block 5 = Ok wit_lB2 /\
+  dlgs wit_lB2 = dlgs wit_ledger /\ staked wit_lB2 = staked wit_ledger.
+Proof. exact undo_unstake_order_witness_restored. Qed.
+Print Assumptions C03_undo_unstake_order_witness_restored.
 
 (* FPos cannot be dropped: staking into a fund of amount 0 and undoing the stake drops the fund (no reachable ledger
    has such a fund) *)
@@ -262,8 +256,9 @@ Proof. exact deliver_rejected_unchanged. Qed.
 Print Assumptions C03_reject_unchanged.
 
 (* STILL MISSING for "the ledger is a function of the main chain alone" as a theorem about the node:
-   that connecting the blocks of the other branch from a ledger that agrees up to fund order (what C03_undo_chain
-   delivers at the common ancestor) yields ledgers that agree up to fund order with those of a node that applied the
-   main chain only (ApplyBlockToState respects leqv_p: the lottery, the reward split and the fund lookups do not depend
-   on the order of the funds), and the composition with check_reorgs of Model/Node.v.  That half remains covered by the
-   implementation-side comparison with a fresh node (Check/C03.v), which compares the funds of a pool by owner. *)
+   C03_undo_chain_general delivers, at the common ancestor, a ledger that agrees (leqv: accounts extensionally, delegate
+   table, staked total) with the ledger a node following the main chain only has there.  Not proved: that connecting
+   the blocks of the other branch from an agreeing ledger yields agreeing ledgers (ApplyBlockToState respects leqv; it
+   reads accounts only through lookups with the all-zero default or after an existence check that agreeing ledgers
+   share), and the composition with check_reorgs of Model/Node.v.  That half remains covered by the implementation-side
+   comparison with a fresh node (Check/C03.v, including the order of the funds: code 9). *)
